@@ -33,6 +33,8 @@ type Engine struct {
 	tiBin         string
 	modPkgs       []string
 	transparent   map[string]bool // abstract predicates being expanded (footprint probing)
+	preserved     []Preserved
+	fpCache       map[string]map[string]bool
 	orderSkip     map[string]string
 }
 
